@@ -45,6 +45,7 @@ type sched struct {
 	wg      sync.WaitGroup
 	nowLast *Term
 	preempt int
+	delays  int // delay-bounded scheduling: deviations from the deterministic round-robin choice used so far
 }
 
 func newMainGoroutine(m *machine) *gor {
@@ -121,6 +122,28 @@ func (s *sched) pick(cands []*gor, timers []*timerV) (g *gor, t *timerV) {
 		return nil, nil
 	}
 	k := 0
+	if md := s.m.cfg.maxDelays(); md >= 0 {
+		// delay bounding (Emmi, Qadeer, Rakamaric): candidates are tried in a fixed round-robin order (goroutines
+		// after the current one first, timers last); choosing the i-th candidate costs i delays
+		cur := s.m.curG
+		if cur != nil && len(cands) > 1 {
+			rot := make([]*gor, 0, len(cands))
+			for _, g := range cands {
+				if g == cur || g.id > cur.id {
+					rot = append(rot, g)
+				}
+			}
+			for _, g := range cands {
+				if g != cur && g.id < cur.id {
+					rot = append(rot, g)
+				}
+			}
+			cands = rot
+		}
+		if rem := md - s.delays; n > rem+1 {
+			n = rem + 1
+		}
+	}
 	if n > 1 {
 		if s.m.path == nil {
 			panic(engineError("scheduling choice outside a path"))
@@ -130,6 +153,9 @@ func (s *sched) pick(cands []*gor, timers []*timerV) (g *gor, t *timerV) {
 			alts[i] = termTrue
 		}
 		k = s.m.path.decide(alts, true)
+	}
+	if s.m.cfg.maxDelays() >= 0 {
+		s.delays += k
 	}
 	if k < len(cands) {
 		return cands[k], nil
